@@ -125,11 +125,33 @@ deriving DecidableEq
 /-- `http::Uri::path()` for origin-form targets -/
 def uriPath (uri : String) : List Char := uri.toList.takeWhile (· ≠ '?')
 
-/-- `Path::new(Url::new(uri))` -/
-def PathSt.new (uri : String) : PathSt := ⟨uri, uriPath uri, 0, []⟩
+/-- `Quoter::requote` of `Quoter::new(b"", b"%/+")` (actix-router/src/quoter.rs:35-66): every valid
+`%XX` is decoded unless it decodes to one of the protected `%`, `/`, `+`; scanning resumes after a
+decoded triple, and one byte later otherwise.  (ASCII results only; fuel = input length.) -/
+def requoteAux : Nat → List Char → List Char
+  | 0, l => l
+  | _ + 1, [] => []
+  | n + 1, c :: rest =>
+    if c == '%' then
+      match rest with
+      | a :: b :: rest' =>
+        match hexVal a, hexVal b with
+        | some x, some y =>
+          let ch := Char.ofNat (x * 16 + y)
+          if ch == '%' || ch == '/' || ch == '+' then c :: requoteAux n rest
+          else ch :: requoteAux n rest'
+        | _, _ => c :: requoteAux n rest
+      | _ => c :: requoteAux n rest
+    else c :: requoteAux n rest
 
-/-- `Url::update(&uri)` -/
-def PathSt.update (p : PathSt) (uri : String) : PathSt := { p with uri := uri, path := uriPath uri }
+/-- `Url::path()`: the re-quoted path if re-quoting changed anything, else `uri.path()` -/
+def urlPath (uri : String) : List Char := requoteAux (uriPath uri).length (uriPath uri)
+
+/-- `Path::new(Url::new(uri))` -/
+def PathSt.new (uri : String) : PathSt := ⟨uri, urlPath uri, 0, []⟩
+
+/-- `Url::update(&uri)`: `self.uri = uri.clone(); self.path = requote(uri.path())` -/
+def PathSt.update (p : PathSt) (uri : String) : PathSt := { p with uri := uri, path := urlPath uri }
 
 /-- `Path::reset()` -/
 def PathSt.reset (p : PathSt) : PathSt := { p with skip := 0, segments := [] }
